@@ -835,6 +835,12 @@ func normV(sig []byte) []byte {
 
 func ecrEntries(message, att []byte) string {
 	digest := crypto.Keccak256(message)
+	// one message in five carries NO entries: the model then recovers the keys with its own secp256k1
+	// (lean/Cctp/Native/Secp256k1.lean), so on those ops the comparison is between the implementation and a model that
+	// depends on nothing the implementation computed
+	if digest[0]%5 == 0 {
+		return ""
+	}
 	seen := map[string]bool{}
 	var ents []string
 	for i := 0; (i+1)*65 <= len(att); i++ {
@@ -858,7 +864,8 @@ func ecrEntries(message, att []byte) string {
 
 // Session executes op lines against a World.
 type Session struct {
-	w     *World
+	w         *World
+	headerSet bool
 	snaps map[string]map[string]string
 }
 
@@ -885,6 +892,13 @@ func (s *Session) varyHeader(op Op) {
 	h := fnv.New64a()
 	h.Write([]byte(op.String()))
 	x := h.Sum64()
+	// a "block" is a run of ops under one header (transactions of one block share height and time, and so do the
+	// messages of one transaction): a new header starts at about one op in four, never inside an open transaction
+	if s.headerSet && (s.w.inBatch || x%4 != 0 || op.KV.get("blk") == "same") {
+		return
+	}
+	s.headerSet = true
+	x >>= 2
 	height := headerHeights[x%uint64(len(headerHeights))]
 	t := time.Unix(headerTimes[(x>>16)%uint64(len(headerTimes))], int64((x>>32)%1000)*1000000).UTC()
 	chain := []string{"", "noble-1", "grand-1", "test"}[(x>>48)%4]
@@ -1082,6 +1096,13 @@ func (s *Session) Exec(op Op) (line string) {
 			} else {
 				r = hex.EncodeToString([]byte(b))
 			}
+		case "ecrecover":
+			pub, err := safeEcrecover(a, kv.bytes("b"))
+			if err != nil {
+				r = "ERR"
+			} else {
+				r = hex.EncodeToString(pub)
+			}
 		case "denom":
 			r = b01(sdk.ValidateDenom(string(a)) == nil)
 		case "base58":
@@ -1126,4 +1147,14 @@ func (s *Session) Exec(op Op) (line string) {
 		return "#"
 	}
 	return "bad-op"
+}
+
+// safeEcrecover: crypto.Ecrecover with a panic (none is expected) turned into an error.
+func safeEcrecover(hash, sig []byte) (pub []byte, err error) {
+	defer func() {
+		if r := recover(); r != nil {
+			err = fmt.Errorf("panic: %v", r)
+		}
+	}()
+	return crypto.Ecrecover(hash, sig)
 }
